@@ -34,7 +34,7 @@ def import_style(pid, body):
     more = ""
     m = re.search(r"^// EXTRA-IMPORTS: (.*)$", body, flags=re.M)
     if m:
-        more = "".join("\t\"%s\"\n" % x for x in m.group(1).split())
+        more = "".join(("\t_ \"%s\"\n" % x[1:]) if x.startswith("_") else ("\t\"%s\"\n" % x) for x in m.group(1).split())
     return "package corp\n\nimport (\n" + more + imp + "\trt \"verifws/verifrt\"\n)\n\nvar _ = rt.Emit\nvar _ " + q + "Iter[int]\n" + extra + "\n" + body
 
 
